@@ -223,3 +223,26 @@ Proof.
   rewrite (proj1 parse_complete v s Hr w2 _ (stop_of_ws w2 H2) Hf).
   rewrite (skipws_all w2 H2), Hk. reflexivity.
 Qed.
+
+(* ---- Len(): the end of the root value does not depend on what follows it ---- *)
+Lemma pvalue_fuel_any v s : Renders v s -> forall r f, stop r -> (2 * length s <= f)%nat -> pvalue f (s ++ r) = Some (v, r).
+Proof. exact (proj1 parse_complete v s). Qed.
+
+Theorem jlen_boundary v s w1 r : Renders v s -> ws w1 -> stop r -> jlen (w1 ++ s ++ r) = Some (length w1 + length s)%nat.
+Proof.
+  intros Hr H1 Hs. unfold jlen. rewrite (pvalue_skip _ w1 _ H1).
+  assert (Hf : (2 * length s <= S (2 * length (w1 ++ s ++ r)))%nat) by (rewrite !app_length; lia).
+  rewrite (pvalue_fuel_any v s Hr r _ Hs Hf). f_equal. rewrite !app_length. lia.
+Qed.
+(* hence: any two continuations give the same length, the prefix up to the length has the same length (idempotent),
+   and the length never exceeds the text *)
+Corollary jlen_trailer_free v s w1 r1 r2 : Renders v s -> ws w1 -> stop r1 -> stop r2 -> jlen (w1 ++ s ++ r1) = jlen (w1 ++ s ++ r2).
+Proof. intros. rewrite !(jlen_boundary v s w1) by assumption. reflexivity. Qed.
+Corollary jlen_idempotent v s w1 r n : Renders v s -> ws w1 -> stop r -> jlen (w1 ++ s ++ r) = Some n ->
+  firstn n (w1 ++ s ++ r) = w1 ++ s /\ jlen (w1 ++ s) = Some n /\ (n <= length (w1 ++ s ++ r))%nat.
+Proof.
+  intros Hr H1 Hs Hn. rewrite (jlen_boundary v s w1 r Hr H1 Hs) in Hn. inversion Hn; subst. split; [|split].
+  - rewrite app_assoc, <- app_length. rewrite firstn_app, Nat.sub_diag, firstn_all. cbn. apply app_nil_r.
+  - rewrite <- (app_nil_r s) at 1. apply (jlen_boundary v s w1 [] Hr H1 I).
+  - rewrite !app_length. lia.
+Qed.
